@@ -4647,3 +4647,109 @@ def axis_first(r: R, chk, quals: List[str], rule="AXIS-FIRST", floor: int = 1):
                    func=q, construct="control-point axis not first")
     chk.floor(rule, "constructor calls whose control-point axes are followed", n, floor)
     return n
+
+
+# ---------------------------------------------------------------------------------------------------------
+# COMMIT-LOOP: a composite that commits step by step until the step is refused (`except ValueError`) lets nothing else escape
+def _commit_loops(fn):
+    """(try statement, atomic self-calls in its body) for every `try: ... self.m(...) ... except ValueError` whose call sits in a loop"""
+    out = []
+    for t in ast.walk(fn):
+        if not isinstance(t, ast.Try):
+            continue
+        if not any(h.type is not None and "ValueError" in seg(h.type) for h in t.handlers):
+            continue
+        calls = [c for s in t.body for c in ast.walk(s) if isinstance(c, ast.Call) and isinstance(c.func, ast.Attribute) and isinstance(c.func.value, ast.Name) and c.func.value.id == "self"]
+        in_loop = any(isinstance(x, (ast.While, ast.For)) for s in t.body for x in ast.walk(s)) or any(isinstance(l, (ast.For, ast.While)) and any(y is t for y in ast.walk(l)) for l in ast.walk(fn))
+        if calls and in_loop:
+            out.append((t, calls))
+    return out
+
+
+def commit_loop(r: R, chk, quals: List[str], rule="COMMIT-LOOP", floor: int = 2):
+    """`try: while True: self.step(...)  except ValueError: pass` — every accepted step is committed, the refusal of the last one is
+    the ValueError that ends the loop.  Between two commits nothing else may escape:
+    (a) an element of a caller's sequence that the steps receive one by one has been probed (`float(x)`) for all elements BEFORE
+        the first step — otherwise the TypeError of a non-number comes after the steps of the elements before it;
+    (b) in the knot-vector methods the step reaches, a request that cannot be satisfied is not refused by an `assert` on an
+        ordering of the request: AssertionError is not caught by the loop, it escapes after the commits."""
+    from .divisions import reachable_functions
+
+    n = 0
+    asserts_seen = 0
+    for q in quals:
+        fi = r.prog.func(q)
+        fn = fi.node
+        pos = _block_defs(fn)
+        loops = _commit_loops(fn)
+        for t, calls in loops:
+            # (a) caller's sequence walked around the try
+            for lp in ast.walk(fn):
+                if not (isinstance(lp, ast.For) and any(y is t for y in ast.walk(lp))):
+                    continue
+                src = operand_roots(fn, lp.iter, lp, pos, list(fi.params))
+                seqs = [fi.params[i] for i in src if fi.params[i] not in ("self", "tolerance")]
+                for p in seqs:
+                    n += 1
+                    probed = False
+                    cur = lp
+                    while cur is not None and id(cur) in pos and not probed:
+                        stmts, i, up = pos[id(cur)]
+                        for s in stmts[:i]:
+                            for f_ in ast.walk(s):
+                                if isinstance(f_, (ast.For, ast.comprehension)) and operand_roots(fn, f_.iter, s, pos, [p]) and any(isinstance(c, ast.Call) and seg(c.func) in ("float", "int", "self.knotvector.valid", "self.knotvector.span", "self.knotvector.mult") for c in ast.walk(f_ if isinstance(f_, ast.For) else s)):
+                                    probed = True
+                                if isinstance(f_, ast.Call) and seg(f_.func) in ("self.knotvector.valid", "self.knotvector.span", "self.knotvector.mult") and f_.args and operand_roots(fn, f_.args[0], s, pos, [p]):
+                                    probed = True
+                        cur = up
+                    chk.ob(rule, f"{q}: every element of `{p}` is probed before the first committed step", probed, loc=f"{fi.module}.py:{lp.lineno}",
+                           detail="" if probed else f"{q}: the loop `for {seg(lp.target)} in {seg(lp.iter, 30)}` hands the elements of the caller's `{p}` one by one to `{seg(calls[0], 40)}`, each accepted step committed; nothing looked at ALL elements before the first step, so an element that is not a number ({p} = [1/2, None]) raises TypeError after the knots before it have been removed — the operation raised and the curve is not as it was",
+                           func=q, construct=f"elements of {p} validated between commits")
+            # (b) refusals by assert in the knot-vector methods under the step
+            entries = []
+            ctx = r.root(q)
+            for cr in ctx.calls:
+                if any(cr.node is c for c in calls):
+                    entries += [f.qual for f in cr.callees]
+            for q2 in reachable_functions(r, entries):
+                if not (q2.startswith("knotspace.KnotVector.") or q2.startswith("heavy.ImmutableKnotVector.")):
+                    continue
+                f2 = r.prog.func(q2)
+                params = [p_ for p_ in f2.params if p_ not in ("self", "cls")]
+                for a in _request_asserts(f2.node, params):
+                    n += 1
+                    chk.ob(rule, f"{q2}: no request is refused by an assert under {q}", False, loc=f"{f2.module}.py:{a.lineno}",
+                           detail=f"{q2}: `{seg(a, 50)}` refuses a request with AssertionError; {q} repeats `{seg(calls[0], 40)}` until it is refused and catches ValueError only: at the natural end of the loop (nothing left to reduce: the degree would become negative) the AssertionError escapes AFTER the accepted steps have been committed — the operation raises and the curve has changed",
+                           func=q2, construct="refusal by assert under a commit loop")
+                n += 1
+                chk.ob(rule, f"{q2} (reached from the steps of {q}): refusals are not asserts on the request", True, loc=f"{f2.module}.py:{f2.node.lineno}", func=q2)
+    # positive control: the predicate recognises the one request-assert of the class (scale: assert value > 0)
+    for q2 in r.prog.funcs:
+        if q2.startswith("knotspace.KnotVector."):
+            f2 = r.prog.func(q2)
+            asserts_seen += len(_request_asserts(f2.node, [p_ for p_ in f2.params if p_ not in ("self", "cls")]))
+    chk.floor(rule, "commit loops and knot-vector methods under them examined", n, floor)
+    chk.floor(rule, "positive control: asserts on an ordering of a request in KnotVector (scale)", asserts_seen, 1)
+    return n
+
+
+def _request_asserts(fn, params):
+    tainted = set(params)
+    grow = True
+    while grow:
+        grow = False
+        for a in ast.walk(fn):
+            if isinstance(a, ast.Assign) and any(isinstance(y, ast.Name) and y.id in tainted for y in ast.walk(a.value)):
+                for t in a.targets:
+                    for nm in _target_names(t):
+                        if nm not in tainted:
+                            tainted.add(nm)
+                            grow = True
+    out = []
+    for a in ast.walk(fn):
+        if isinstance(a, ast.Assert):
+            for c in ast.walk(a.test):
+                if isinstance(c, ast.Compare) and any(isinstance(o, (ast.Lt, ast.LtE, ast.Gt, ast.GtE)) for o in c.ops) and any(isinstance(y, ast.Name) and y.id in tainted for y in ast.walk(c)):
+                    out.append(a)
+                    break
+    return out
